@@ -27,6 +27,7 @@ Leaf == Field("leaf", "pub", <<>>, TCPtr(TNm("u8")), None, FALSE)
 FieldOf(kind, tgt) ==
   CASE kind = "val"  -> <<Field("r", "pub", <<>>, TNm(tgt), None, FALSE)>>
     [] kind = "arr"  -> <<Field("r", "pub", <<>>, TArr(TNm(tgt), 2), None, FALSE)>>
+    [] kind = "arr0" -> <<Field("r", "pub", <<>>, TArr(TNm(tgt), 0), None, FALSE)>>
     [] kind = "ptr"  -> <<Field("r", "pub", <<>>, TMPtr(TNm(tgt)), None, FALSE)>>
     [] kind = "base" -> <<Field("r", "pub", <<>>, TNm(tgt), None, TRUE)>>
     [] kind = "vptr" -> <<Field("r", "pub", <<>>, TCPtr(TNm(tgt \o "Vftable")), None, FALSE)>>
